@@ -80,6 +80,20 @@ class Stream:
         impl = C.run_impl(cases)
         dis = []
         fails = []
+        rel_checked = 0
+        if getattr(self, "release_too", False) and os.path.exists(C.HARNESS_BIN_REL):
+            # release build: no overflow/debug-assert panics, no ub_checks; messages end at a guard page
+            impl_r = C.run_impl(cases, release=True)
+            for line in cases:
+                cid = line.split(" ", 1)[0]
+                m = model.get(cid, "MISSING")
+                i = impl_r.get(cid, "MISSING")
+                rel_checked += 1
+                if i.startswith(("CRASH", "HANG", "MISSING")) or "B(OUTSIDE" in i:
+                    fails.append({"stream": self.name, "case": line, "observed": "[release build] " + i[:600], "expected": m[:600],
+                                  "why": "release build: implementation " + i[:60] + " (message ends at a PROT_NONE guard page)"})
+                elif "PANIC" not in m and "UB" not in m and m != i:
+                    dis.append({"case": line, "model": m[:400], "impl": "[release build] " + i[:400]})
         hist = {}
         seen = set()
         nontriv = 0
@@ -105,7 +119,15 @@ class Stream:
                         samples.append({"case": body[:300], "impl": i[:300]})
         return {"evaluations": len(cases), "distinct_nontrivial": nontriv, "rule": self.rule, "samples": samples,
                 "histogram": hist, "disagreements": dis, "failures": fails,
-                "model_impl_agree": len(cases) - len(dis)}
+                "model_impl_agree": len(cases) - len(dis), "release_build_cases": rel_checked}
+
+
+def _big_stack():
+    import resource
+    try:
+        resource.setrlimit(resource.RLIMIT_STACK, (resource.RLIM_INFINITY, resource.RLIM_INFINITY))
+    except (ValueError, OSError):
+        pass
 
 
 def run_model_with_spec(cases):
@@ -115,7 +137,8 @@ def run_model_with_spec(cases):
     shards = [cases[i::n] for i in range(n)]
     procs = []
     for sh in shards:
-        p = subprocess.Popen([C.DRIVER_BIN], stdin=subprocess.PIPE, stdout=subprocess.PIPE, text=True)
+        p = subprocess.Popen([C.DRIVER_BIN], stdin=subprocess.PIPE, stdout=subprocess.PIPE, text=True,
+                             preexec_fn=_big_stack)
         procs.append((p, sh))
     import threading
     outs = [None] * len(procs)
@@ -211,3 +234,299 @@ class Names(Stream):
 
 
 STREAMS = {"names": Names()}
+
+
+# ------------------------------------------------------------------------------- script streams
+import gen_msg as GM
+
+ABNORMAL = ("CRASH", "HANG", "MISSING")
+
+
+def split_calls(line):
+    """-> (nreaders, [msgs hex], [call strings])"""
+    a = line.split(" ")
+    n = int(a[2])
+    msgs = a[3:3 + n]
+    calls = a[3 + n].split(",") if len(a) > 3 + n else []
+    return n, msgs, [c for c in calls if c]
+
+
+class Scripts(Stream):
+    """conforming scripts over generated/mutated/random messages (C01, C09, C20)"""
+    name = "scripts"
+    release_too = True
+    rule = ("message = random AST (0-3 questions, 0-12 records/section over the 17 typed formats + OPT + unknown types/classes, "
+            "shared-suffix names) rendered with none/greedy/random compression, 45% with 1-2 targeted mutations (RDLENGTH, counts, "
+            "pointer retarget, label bytes/lengths, truncation, trailing bytes), 12% random bytes; script = header, questions "
+            "(question/question_ref/the_question/skip), header/data pairs (4 header kinds x skip/bytes/typed right+wrong type/opt, data "
+            "call only if the header call succeeded), seeks/counts/random access/borrowed-name ops sprinkled anywhere, 1-2 passes. "
+            "Non-trivial: at least one record header call succeeded. Distinct by (message, script).")
+
+    def generate(self, rng, tier, pid):
+        n = 3000 if tier == "quick" else 100000
+        cases, self.tags = GM.gen_scripts(rng, n, 60 if tier == "quick" else 150)
+        return cases
+
+    def classify(self, line, impl):
+        if impl.startswith(ABNORMAL):
+            return impl[:12]
+        last = impl.split(";")[-1]
+        if "PANIC" in impl:
+            return "panic"
+        return "clean" if "err:" not in impl else "with-errors"
+
+    def nontrivial(self, line, impl):
+        return ";ok:M(" in impl or ";ok:HN(" in impl or ";ok:HR(" in impl
+
+    def oracle(self, line, impl, spec, pid):
+        if impl.startswith(ABNORMAL):
+            return "conforming call sequence made the implementation " + impl[:40]
+        if "PANIC" in impl:
+            k = impl.split(";").index([x for x in impl.split(";") if "PANIC" in x][0])
+            return "conforming call sequence panicked at call %d: %s" % (k, impl.split(";")[k])
+        if "B(OUTSIDE" in impl:
+            return "returned slice lies outside the message"
+        return None
+
+
+class Misuse(Stream):
+    """non-conforming scripts over several readers, markers and borrowed names exchanged (C17)"""
+    name = "misuse"
+    release_too = True
+    rule = ("1-3 messages (generated/mutated/random, some truncated or extended) with one reader each; 3-40 arbitrary calls in any "
+            "order on any reader, marker and borrowed-name indices drawn from the shared pools (markers of longer messages used on "
+            "shorter ones). Debug build: std ub_checks abort on a violated get_unchecked precondition. "
+            "Non-trivial: some call used a marker (…at/skip/bytes/data). Distinct by full case.")
+
+    def generate(self, rng, tier, pid):
+        return GM.gen_misuse(rng, 3000 if tier == "quick" else 120000)
+
+    def classify(self, line, impl):
+        if impl.startswith(ABNORMAL):
+            return impl[:12]
+        if "PANIC(debug_assert)" in impl:
+            return "debug_assert"
+        if "PANIC" in impl:
+            return "panic-overflow"
+        return "no-panic"
+
+    def nontrivial(self, line, impl):
+        return ":B(" in impl or ":D(" in impl or "err:EndOf" in impl
+
+    def oracle(self, line, impl, spec, pid):
+        if impl.startswith(ABNORMAL):
+            return "safe calls made the implementation " + impl[:40] + " (abort = violated unsafe precondition)"
+        if "B(OUTSIDE" in impl:
+            return "a safe call returned a slice outside the message"
+        if "PANIC(other" in impl:
+            return "undocumented panic: " + [x for x in impl.split(";") if "PANIC" in x][0]
+        return None
+
+
+class Decode(Stream):
+    """iterator API drain and from_msg for all 17 types on every kind of message (C01)"""
+    name = "decode"
+    release_too = True
+    rule = ("same message generator as 'scripts'; each message drained through MessageIterator (new, question, questions(), records()) "
+            "and through RecordSet::<D>::from_msg for a random D of the 17 + always A; a few 65535/65536/70000-byte messages. "
+            "Non-trivial: the header parsed. Distinct by (op, message).")
+
+    def generate(self, rng, tier, pid):
+        n = 2500 if tier == "quick" else 80000
+        out = []
+        for i in range(n):
+            m, ast, L, tag = GM.gen_message(rng)
+            out.append("i%d iter %s" % (i, GM.hx(m)))
+            out.append("f%d rrset %d %s" % (i, rng.choice(GM.TYPED), GM.hx(m)))
+            if i % 4 == 0:
+                out.append("g%d rrset 1 %s" % (i, GM.hx(m)))
+        for j, size in enumerate([65535, 65536, 70000] if tier == "quick" else [65534, 65535, 65536, 65537, 70000, 100000]):
+            ast = GM.rand_ast(rng)
+            m, L = GM.render(rng, ast)
+            m = m + bytes(size - len(m)) if len(m) < size else m[:size]
+            out.append("ib%d iter %s" % (j, GM.hx(m)))
+            out.append("fb%d rrset 1 %s" % (j, GM.hx(m)))
+            out.append("sb%d script 1 %s 0.header,0.skipq,0.marker,0.?skipd:L,0.seek:2,0.rcount" % (j, GM.hx(m)))
+        return out
+
+    def classify(self, line, impl):
+        if impl.startswith(ABNORMAL):
+            return impl[:12]
+        op = line.split(" ")[1]
+        if op == "rrset":
+            return "rrset:" + impl.split("(")[0][:24]
+        return op
+
+    def nontrivial(self, line, impl):
+        return impl.startswith("new=ok") or not impl.startswith(("err:EndOfBuffer", "new=err"))
+
+    def oracle(self, line, impl, spec, pid):
+        if impl.startswith(ABNORMAL) or "PANIC" in impl:
+            return "decoding entry point made the implementation " + impl[:60]
+        return None
+
+
+class RandAcc(Stream):
+    """marker-based random access from readers in different states must agree (C10)"""
+    name = "randacc"
+    rule = ("reader 0 makes a healthy marker/skip pass collecting all markers; reader 1 (same bytes) is driven by a conforming script "
+            "biased to typed reads of the wrong type (so that it often fails inside an RDLENGTH window), seeks and over-reads; "
+            "reader 2 is fresh; then for every marker (max 8) each reader calls record_data_bytes_at, record_data_at::<D> (right and a "
+            "random type) and name_ref_at + decoding/label iteration of that name; results must be identical across the three readers. "
+            "Non-trivial: reader 1 ended in the error state or was sought. Distinct by case.")
+
+    AT = ("bytesat", "dataat", "nrefat", "nrname", "nrlabels")
+
+    def generate(self, rng, tier, pid):
+        n = 1500 if tier == "quick" else 50000
+        out = []
+        for i in range(n):
+            m, ast, L, tag = GM.gen_message(rng)
+            nrec = len(L.marks) if L else 3
+            calls = ["0.header", "0.skipq"]
+            for _ in range(nrec + 1):
+                calls += ["0.marker", "0.?skipd:L"]
+            hist = GM.conforming_script(rng, L, ast, 1, 40).split(",")
+            hist = [c for c in hist if not any(("." + a) in c or (".?" + a) in c for a in self.AT) and "nreq" not in c]
+            # bias: typed reads with a wrong type fail half-way
+            hist = [(c.replace("?skipd:L", "?data:%d:L" % rng.choice(GM.TYPED)) if rng.random() < 0.4 else c) for c in hist]
+            calls += hist
+            if rng.random() < 0.5:
+                calls.append("2.header")
+            for k in range(min(nrec + 1, 8)):
+                ty = L.marks[k]["type"] if (L and k < len(L.marks) and L.marks[k]["type"] in GM.TYPED) else rng.choice(GM.TYPED)
+                ty2 = rng.choice(GM.TYPED)
+                for r in (0, 1, 2):
+                    calls += ["%d.bytesat:%d" % (r, k), "%d.dataat:%d:%d" % (r, ty, k), "%d.dataat:%d:%d" % (r, ty2, k),
+                              "%d.nrefat:%d" % (r, k), "%d.nrname:H:L" % r, "%d.nrlabels:L" % r]
+            out.append("a%d script 3 %s %s %s %s" % (i, GM.hx(m), GM.hx(m), GM.hx(m), ",".join(calls)))
+        return out
+
+    def nontrivial(self, line, impl):
+        n, msgs, calls = split_calls(line)
+        res = impl.split(";")
+        return any(c.startswith("1.") and (":" in c and "data" in c or "seek" in c) and k < len(res) and res[k].startswith("err")
+                   for k, c in enumerate(calls))
+
+    def classify(self, line, impl):
+        return "abnormal" if impl.startswith(ABNORMAL) or "PANIC" in impl else "ok"
+
+    def oracle(self, line, impl, spec, pid):
+        if impl.startswith(ABNORMAL):
+            return "implementation " + impl[:40]
+        n, msgs, calls = split_calls(line)
+        res = impl.split(";")
+        if len(res) < len(calls):
+            return "run ended early: " + res[-1][:80]
+        groups = {}
+        for k, c in enumerate(calls):
+            r, op = c.split(".", 1)
+            if op.split(":")[0] in self.AT:
+                # position-based grouping: the at-phase repeats the same 6 ops per reader
+                groups.setdefault((op, k // 1), None)
+        # walk the at-phase: blocks of 6 calls per reader, 3 readers per marker
+        first = next((k for k, c in enumerate(calls) if c.split(".", 1)[1].split(":")[0] == "bytesat"), None)
+        if first is None:
+            return None
+        k = first
+        while k + 18 <= len(calls):
+            for j in range(6):
+                vals = [re.sub(r"#\d+", "#", res[k + 6 * r + j]) for r in range(3)]
+                if not (vals[0] == vals[1] == vals[2]):
+                    return "random access differs across reader states for call %s: healthy=%s after-history=%s fresh=%s" % (
+                        calls[k + j].split(".", 1)[1], vals[0][:120], vals[1][:120], vals[2][:120])
+            k += 18
+        return None
+
+
+class RdLen(Stream):
+    """typed data decoded strictly inside RDLENGTH (C04)"""
+    name = "rdlen"
+    rule = ("for a random record of a generated message: RDLENGTH set to true+{0,-2,-1,1,2}, 0, true+len(next record), 65535; "
+            "character-string/TXT chunk lengths +-1; two copies of the message that differ only in the bytes after the record data "
+            "(0xFF.. vs a valid-looking name/record); both read sequentially up to the record, then typed data (right type) or raw "
+            "bytes, then the next record header. Non-trivial: the record under test was reached. Distinct by case.")
+
+    FIXED = {1, 28, 2, 3, 4, 5, 7, 8, 9, 12, 15, 6, 14, 13}
+
+    def generate(self, rng, tier, pid):
+        n = 3000 if tier == "quick" else 120000
+        out = []
+        i = 0
+        while len(out) < n:
+            ast = GM.rand_ast(rng)
+            msg, L = GM.render(rng, ast)
+            typed = [k for k, m in enumerate(L.marks) if m["type"] in GM.TYPED]
+            if not typed:
+                continue
+            k = rng.choice(typed)
+            m = L.marks[k]
+            nxt = (L.marks[k + 1]["rdata_pos"] + L.marks[k + 1]["rdlen"] - (m["rdata_pos"] + m["rdlen"])) if k + 1 < len(L.marks) else 0
+            delta = rng.choice([0, 0, -2, -1, 1, 2, -m["rdlen"], nxt, 65535 - m["rdlen"]])
+            b = bytearray(msg)
+            newlen = max(0, min(65535, m["rdlen"] + delta))
+            b[m["rdlen_off"]:m["rdlen_off"] + 2] = GM.be(newlen, 2)
+            sub = "len%+d" % (newlen - m["rdlen"])
+            if rng.random() < 0.2 and m["type"] in (13, 16) and m["rdlen"] > 0:
+                b[m["rdata_pos"]] = (b[m["rdata_pos"]] + rng.choice([1, 255])) % 256
+                sub += "+chunk"
+            end = m["rdata_pos"] + newlen
+            a1 = bytes(b[:end]) + b"\xff" * max(0, len(b) - end) if end <= len(b) else bytes(b)
+            tail2 = b"\x03www\xc0\x0c\x00\x01\x00\x01\x00\x00\x00\x01\x00\x04\x01\x02\x03\x04"
+            a2 = bytes(b[:end]) + (tail2 * 20)[:max(len(tail2), len(b) - end)] if end <= len(b) else bytes(b)
+            calls = ["header", "skipq"]
+            for _ in range(k):
+                calls += ["marker", "?skipd:L"]
+            g2 = "?data:%d:L" % m["type"] if rng.random() < 0.75 else "?bytes:L"
+            calls += [rng.choice(["hdrI", "hdrH", "href", "marker"]), g2, "marker"]
+            sc = ",".join("0.%s" % c for c in calls) + "," + ",".join("1.%s" % c for c in calls)
+            meta = "%d:%d:%d:%s" % (m["type"], newlen - m["rdlen"], len(calls), sub)
+            out.append("l%d@%s script 2 %s %s %s" % (i, meta, GM.hx(a1), GM.hx(a2), sc))
+            # the true bytes too (third variant: original following bytes)
+            if rng.random() < 0.3:
+                out.append("m%d@%s script 2 %s %s %s" % (i, meta, GM.hx(bytes(b)), GM.hx(a1), sc))
+            i += 1
+        return out
+
+    def nontrivial(self, line, impl):
+        return "skip" not in impl.split(";")[-2:]
+
+    def classify(self, line, impl):
+        meta = line.split(" ")[0].split("@")[1].split(":")
+        res = impl.split(";")
+        ncalls = int(meta[2])
+        r = res[ncalls - 2] if len(res) >= ncalls else "short"
+        return "delta%s:%s" % (("0" if meta[1] == "0" else ("+" if int(meta[1]) > 0 else "-")), r.split("(")[0][:22])
+
+    def oracle(self, line, impl, spec, pid):
+        if impl.startswith(ABNORMAL) or "PANIC" in impl:
+            return "implementation " + impl[:60]
+        meta = line.split(" ")[0].split("@")[1].split(":")
+        ty, delta, ncalls = int(meta[0]), int(meta[1]), int(meta[2])
+        res = impl.split(";")
+        if len(res) < 2 * ncalls:
+            return None
+        r0, r1 = res[:ncalls], res[ncalls:2 * ncalls]
+        d0, d1 = r0[ncalls - 2], r1[ncalls - 2]
+        h0 = r0[ncalls - 3]
+        if d0 != d1:
+            return "bytes after the record data changed the decoded record data: %s vs %s" % (d0[:150], d1[:150])
+        mm = re.search(r"M\((\d+),(\d+),(\d+),(\d+),(\d+),(\d+),(\d+)\)", h0)
+        if d0.startswith("ok") and mm:
+            rdpos = int(mm.group(2)) + 10
+            rdlen = int(mm.group(6))
+            nx = re.search(r"M\((\d+),", r0[ncalls - 1])
+            if nx and int(nx.group(1)) != rdpos + rdlen:
+                return "next record read from %s, expected %d (rdata_pos+rdlen)" % (nx.group(1), rdpos + rdlen)
+            bm = re.match(r"ok:B\((\d+),([0-9a-f-]+)\)", d0)
+            if bm:
+                n, msgs, calls = split_calls(line)
+                raw = msgs[0][2 * rdpos:2 * (rdpos + rdlen)] or "-"
+                if int(bm.group(1)) != rdpos or bm.group(2) != raw:
+                    return "raw access returned offset %s bytes %s, expected offset %d bytes %s" % (bm.group(1), bm.group(2)[:60], rdpos, raw[:60])
+            if d0.startswith("ok:D(") and delta != 0 and ty in self.FIXED and "+chunk" not in meta[3]:
+                return "RDLENGTH differs from the data's true length by %d but typed decoding succeeded: %s" % (delta, d0[:120])
+        return None
+
+
+STREAMS.update({"scripts": Scripts(), "misuse": Misuse(), "decode": Decode(), "randacc": RandAcc(), "rdlen": RdLen()})
